@@ -153,7 +153,7 @@ func runC17(c *Ctx) error {
 	if err != nil {
 		return err
 	}
-	fam2 := c.Rep.Family("accepts-implies-validates", fmt.Sprintf("exhaustive: for every key path of the reflected tree (%d) the minimal document (documented-required keys present) with a typed leaf, and for every enumerated setting every value the code accepts (entry types, deb/rpm compression incl. algorithm:level, signature method/type, version schema): the strict parser must accept it and the emitted schema must validate its JSON form; then random larger documents; non-trivial = more than the required keys", len(order)))
+	fam2 := c.Rep.Family("accepts-implies-validates", fmt.Sprintf("exhaustive: for every key path of the reflected tree (%d) the minimal document (documented-required keys present) with a typed leaf, and for every enumerated setting every value the code accepts (entry types, deb/rpm compression incl. algorithm:level, signature method/type, version schema): the strict parser must accept it and the emitted schema must validate its JSON form; the same documents with an unknown key injected at every object level (parser and schema must both reject); then random larger documents; non-trivial = more than the required keys", len(order)))
 	fam2.Exhaustive = true
 	check := func(doc map[string]any, label string) {
 		yb, _ := yaml.Marshal(doc)
@@ -193,6 +193,13 @@ func runC17(c *Ctx) error {
 		doc := docFor(kinds, p, leaf, -1)
 		fixRequired(doc)
 		check(doc, "path:"+p)
+		// the same document with an unknown key at every object level of the path: parser and schema must
+		// agree (both reject) – a parser that tolerates what the schema forbids is a disagreement on key paths
+		for lvl := 0; lvl < objectLevels(p); lvl++ {
+			bad := docFor(kinds, p, leaf, lvl)
+			fixRequired(bad)
+			check(bad, fmt.Sprintf("inject:%s@%d", p, lvl))
+		}
 	}
 	for p, vals := range enumerated {
 		for _, v := range vals {
